@@ -2,6 +2,7 @@ package main
 
 import (
 	"fmt"
+	"go/token"
 	"go/types"
 	"strings"
 
@@ -478,6 +479,88 @@ func c03RecoveredValues(c *Ctx, r string) {
 		}
 	}
 	c.check(used, r, fnName(f)+":verdict-acted-upon", c.pos(from[0].Pos()), "the verdict of the value check feeds a branch", "the result of the value check is not used")
+	// what is compared with the size of a value log is where the value ENDS: some comparison against a Size() result
+	// involves the length of the value, not only its offset (a value whose first bytes made it to the log is not there)
+	endCompared := false
+	ncmp := 0
+	for _, g := range c.allFns {
+		if !fnInPkgs(g, []string{"embedded/store"}) || len(g.Blocks) == 0 {
+			continue
+		}
+		if g != f && !looksAtSizesAny(g) {
+			continue
+		}
+		allInstrs(g, false, func(in ssa.Instruction) {
+			bo, ok := in.(*ssa.BinOp)
+			if !ok {
+				return
+			}
+			switch bo.Op {
+			case token.GTR, token.LSS, token.GEQ, token.LEQ:
+			default:
+				return
+			}
+			isSize := func(v ssa.Value) bool {
+				return dependsOn(v, func(x ssa.Value) bool {
+					cl, ok := x.(*ssa.Call)
+					return ok && cl.Call.IsInvoke() && cl.Call.Method.Name() == "Size"
+				})
+			}
+			usesVLen := func(v ssa.Value) bool {
+				return dependsOn(v, func(x ssa.Value) bool {
+					u, ok := x.(*ssa.UnOp)
+					if !ok || u.Op != token.MUL {
+						return false
+					}
+					fl, _ := fieldOf(u.X)
+					return fl == "TxEntry.vLen"
+				})
+			}
+			if (isSize(bo.X) && !isSize(bo.Y)) || (isSize(bo.Y) && !isSize(bo.X)) {
+				other := bo.X
+				if isSize(bo.X) {
+					other = bo.Y
+				}
+				if dependsOn(other, func(x ssa.Value) bool {
+					u, ok := x.(*ssa.UnOp)
+					if !ok {
+						return false
+					}
+					fl, _ := fieldOf(u.X)
+					return fl == "TxEntry.vOff" || fl == "TxEntry.vLen"
+				}) || strings.Contains(desc(other), "decodeOffset") {
+					ncmp++
+					if usesVLen(other) {
+						endCompared = true
+					}
+				}
+			}
+		})
+	}
+	if ncmp == 0 {
+		c.undecided(r, fnName(f)+":end-of-value-compared", "no comparison of a value position with a value-log size found")
+	} else {
+		c.check(endCompared, r, fnName(f)+":end-of-value-compared", c.pos(from[0].Pos()), "a comparison with the value-log size involves the value length", "values are looked for in the value logs by their start offset only: a value whose first bytes reached the log but not its end is taken for present, the transaction is reloaded and committed with an unreadable value")
+	}
+}
+
+// looksAtSizesAny: g calls Size() on an appendable taken from a []appendable.Appendable parameter.
+func looksAtSizesAny(g *ssa.Function) bool {
+	for _, p := range g.Params {
+		if sl, ok := p.Type().Underlying().(*types.Slice); ok && strings.HasSuffix(sl.Elem().String(), "appendable.Appendable") {
+			found := false
+			allInstrs(g, false, func(in ssa.Instruction) {
+				cc := callOf(in)
+				if cc != nil && cc.IsInvoke() && cc.Method.Name() == "Size" && dependsOn(cc.Value, func(v ssa.Value) bool { return v == ssa.Value(p) }) {
+					found = true
+				}
+			})
+			if found {
+				return true
+			}
+		}
+	}
+	return false
 }
 
 // c03HashTreeComparedAtOpen: the files of the hash tree are synced on their own schedule; a discard rewinds the tree
@@ -536,5 +619,43 @@ func c03HashTreeComparedAtOpen(c *Ctx, r string) {
 	for _, in := range sites(f, via) {
 		okk, d := errHandled(in)
 		c.check(okk, r, fnName(f)+":comparison-error-handled", c.pos(in.Pos()), d, d)
+	}
+	// the comparison is not confined to the transactions that are not committed yet: a transaction that replaced a
+	// discarded one can have been committed (and acknowledged) before the stop while its leaf was still buffered. The
+	// walk over the leaves ends at a matching leaf or at leaf 0, never at a frontier of the store.
+	nw := 0
+	for _, g := range c.allFns {
+		if !fnInPkgs(g, []string{"embedded/store"}) || len(g.Blocks) == 0 {
+			continue
+		}
+		for _, in := range sites(g, callTo("embedded/ahtree.(*AHtree).DataAt")) {
+			// loop conditions governing this read
+			for _, b := range g.Blocks {
+				if len(b.Instrs) == 0 || !b.Dominates(in.Block()) || !reaches(in.Block(), b, nil) {
+					continue
+				}
+				ifi, ok := b.Instrs[len(b.Instrs)-1].(*ssa.If)
+				if !ok {
+					continue
+				}
+				bo, ok := ifi.Cond.(*ssa.BinOp)
+				if !ok {
+					continue
+				}
+				switch bo.Op {
+				case token.GTR, token.LSS, token.GEQ, token.LEQ, token.NEQ:
+				default:
+					continue
+				}
+				nw++
+				_, xc := bo.X.(*ssa.Const)
+				_, yc := bo.Y.(*ssa.Const)
+				c.check(xc || yc, r, fmt.Sprintf("%s:walk-bound#%d", fnName(g), nw), c.pos(bo.Pos()), "the walk over the leaves is bounded by a constant (leaf 0)",
+					"the walk that compares hash-tree leaves with the chain stops at "+desc(bo)+": leaves under the ids below that frontier are never compared, a stale leaf of a discarded transaction whose replacement was already committed stays in the tree")
+			}
+		}
+	}
+	if nw < 1 {
+		c.undecided(r, "walk-bound", "the loop that reads the leaves back was not recognised")
 	}
 }
